@@ -8,7 +8,7 @@ from hypothesis import strategies as st
 
 from .. import gen, model
 from ..core import SKIP, Enum, Sub
-from ..util import carr, arr, compare, flags, tarr
+from ..util import carr, arr, compare, epoch32, flags, tarr
 
 ID = "C08"
 RULE = ("n=0..12 points; times biased to ISO-week / day-of-year edges (Dec 28-Jan 4 of 2018-2022, Feb 28/29, Mar 1) as "
@@ -120,7 +120,7 @@ def clim_case(draw, tier="quick"):
             if draw(st.integers(0, 2)) == 0:
                 x[i] = draw(st.sampled_from(bounds)) + draw(st.sampled_from([0.0, 0.0, Q, -Q]))
     x = draw(gen.overlay_missing(x))
-    return {"x": x, "t": ts, "z": z, "members": members, "tc": draw(st.sampled_from(["dt64", "dt64", "epoch"])),
+    return {"x": x, "t": ts, "z": z, "members": members, "tc": draw(st.sampled_from(["dt64", "dt64", "epoch", "epoch32"])),
             "cfg": draw(st.sampled_from(["dicts", "object"]))}
 
 
@@ -174,7 +174,7 @@ def check_clim(case, rec):
                                   ("has_periodic", any(m.get("period") for m in members)),
                                   ("no_members", not members), ("value_missing", any(model.miss(v) for v in x))) if on]
     rec.note(n > 0 and (multi or on_v or on_t or iso_edge or zmiss), labels)
-    tt = np.array(t, dtype="int64") if case["tc"] == "epoch" else tarr(t)
+    tt = np.array(t, dtype="int64") if case["tc"] == "epoch" else (epoch32(t) if case["tc"] == "epoch32" else tarr(t))
     site = "qartod.climatology_test"
     cfg = rec.call(site + "(config)", build_config, case)
     if cfg is SKIP:
